@@ -154,6 +154,8 @@ pub trait Fl: 'static {
     fn into_iter_list(n: &Self::Node) -> Vec<Triple>;
     /// redundant observers for the keys given, in the shape of `Obs` in Adjacency.tla
     fn obs(n: &Self::Node, keys: &[K]) -> Value;
+    /// `e1 == e2` for all ordered pairs of the edges iterating `n` yields (`for e in &n`), row by row
+    fn edge_eq_table(n: &Self::Node) -> Vec<bool>;
     /// every read-only query of a node, results dropped, NO cross-checks (safe to call while
     /// other threads mutate the node)
     fn plain_queries(n: &Self::Node, k: K);
@@ -466,6 +468,12 @@ macro_rules! directed_flavour {
                     json!({"od": n.out_degree(), "id": n.in_degree(), "root": n.is_root(),
                            "leaf": n.is_leaf(), "orphan": n.is_orphan(), "conn": conn, "fo": fo, "fi": fi})
                 }
+                fn edge_eq_table(n: &Self::Node) -> Vec<bool> {
+                    let es: Vec<_> = n.into_iter().collect();
+                    let mut t = vec![];
+                    for a in &es { for b in &es { t.push(a == b); } }
+                    t
+                }
                 fn plain_queries(n: &Self::Node, k: K) {
                     let _ = (n.out_degree(), n.in_degree(), n.is_root(), n.is_leaf(), n.is_orphan(), n.is_connected(&k));
                     let _ = n.find_outbound(&k);
@@ -613,6 +621,12 @@ macro_rules! undirected_flavour {
                         })
                         .collect();
                     json!({"deg": n.degree(), "orphan": n.is_orphan(), "conn": conn})
+                }
+                fn edge_eq_table(n: &Self::Node) -> Vec<bool> {
+                    let es: Vec<_> = n.into_iter().collect();
+                    let mut t = vec![];
+                    for a in &es { for b in &es { t.push(a == b); } }
+                    t
                 }
                 fn plain_queries(n: &Self::Node, k: K) {
                     let _ = (n.degree(), n.is_orphan(), n.is_connected(&k));
